@@ -42,9 +42,23 @@ def run(ctx):
         ctx.violation("harness h03 does not build against /repo's working tree",
                       {"theorem_or_correspondence": "translator (h03 build)"}, found_input=False)
     elif not gen or not gen["ok"]:
-        ctx.violation("translator failed: a wrapper no longer compiles with /repo's compiler",
-                      {"theorem_or_correspondence": "translator", "detail": (gen or {}).get("errors")},
-                      found_input=False)
+        errs = (gen or {}).get("errors")
+        if isinstance(errs, list) and errs:
+            # a wrapper (one instantiation of a libfunc) that compiled when it was added no longer does:
+            # the wrapper itself is the failing input (compiler panic / rejection on valid code)
+            for name, err in errs[:6]:
+                src = ""
+                try:
+                    src = open(os.path.join(hc.WRAPPERS, name + ".cairo")).read()
+                except OSError:
+                    pass
+                ctx.violation("wrapper %s no longer compiles with the compiler under test: %s" % (name, err[:300]),
+                              {"wrapper": name, "source": src, "error": err,
+                               "replay_cmd": "./check %s --tier %s" % (ctx.pid, ctx.tier)},
+                              found_input=True, fingerprint="wrapper_does_not_compile:%s" % name)
+        else:
+            ctx.violation("translator failed to run", {"theorem_or_correspondence": "translator", "detail": errs},
+                          found_input=False)
     found = 0
     if fault:
         seen = set()
